@@ -169,6 +169,9 @@ def run(ctx) -> None:
     ctx.rule("C16.R11-serialisation-is-injective", "_memoization_info_to_hash separates the keys and values it concatenates (a delimiter, a length "
              "prefix, or a structured dump): without one, different (executable, arguments) pairs serialise to the same text")
     ctx.rule("C16.R12-no-hash-stays-no-hash", "the public hash properties post-process a computed hash (prefix, join, format) only when it is not None")
+    ctx.rule("C16.R15-every-producer-is-hashed", "the producer -> hash table of _compute_memoization_info receives an entry for every producer of the "
+             "component: the filling loop has no continue/break and its store is guarded only by the 'already present' membership test and the "
+             "strong/fuzzy switch")
     ctx.rule("C16.R14-file-part-of-a-producer-reference-is-hashed", "when a reference is replaced by its PRODUCER's hash (the file is not hashed by "
              "content: a directory, fuzzy mode) the replacement still carries the file part of the reference (fileRef): 'ls prod/a:ref' and "
              "'ls prod/b:ref' are different command lines (fails on the current tree: known finding)")
@@ -421,6 +424,38 @@ def run(ctx) -> None:
                 "every reference is replaced as a whole, so the processing order is immaterial") if ok else
                "references are substituted in an order that is not longest-first and not as whole references: the relative spelling "
                "can be replaced inside an absolute one", construct=short(s.call, 80) + " <- order-independent")
+
+    # ---------------- R15: every producer contributes its hash ------------------------------------------------
+    # The table that maps a producer to its hash is filled for EVERY producer of the component: inside the loop nothing skips a
+    # producer (no continue / break), and the store is guarded only by 'already in the table' and by the strong/fuzzy switch.  A
+    # reference that the file loop leaves out (a directory) relies on this table.
+    fill_loops = [lp for lp in source.walk_own(fn) if isinstance(lp, ast.For) and any(
+        isinstance(a, ast.Assign) and any(isinstance(t, ast.Subscript) and isinstance(t.value, ast.Name) for t in a.targets)
+        and any(isinstance(x, ast.Attribute) and x.attr in ("memoization_hash", "memoization_hash_fuzzy") for x in ast.walk(a.value)) for a in ast.walk(lp))]
+    ctx.floor("C16.R15-every-producer-is-hashed", len(fill_loops), 1, "loops that fill the producer -> hash table")
+    for lp in fill_loops:
+        table = next(t.value.id for a in ast.walk(lp) if isinstance(a, ast.Assign) for t in a.targets if isinstance(t, ast.Subscript) and isinstance(t.value, ast.Name)
+                     and any(isinstance(x, ast.Attribute) and x.attr in ("memoization_hash", "memoization_hash_fuzzy") for x in ast.walk(a.value)))
+        skips = [x for x in ast.walk(lp) if isinstance(x, (ast.Continue, ast.Break))]
+        bad_guards = []
+        for a in ast.walk(lp):
+            if isinstance(a, ast.Assign) and any(isinstance(t, ast.Subscript) and isinstance(t.value, ast.Name) and t.value.id == table for t in a.targets):
+                for anc in source.ancestors(a):
+                    if anc is lp:
+                        break
+                    if isinstance(anc, ast.If):
+                        names = set(source.names_in(anc.test))
+                        member = isinstance(anc.test, ast.Compare) and isinstance(anc.test.ops[0], (ast.In, ast.NotIn)) and table in names
+                        switch = names <= {"fuzzy"} or (names & {"fuzzy"} and len(names) == 1)
+                        if not (member or switch):
+                            bad_guards.append(anc.test)
+        ok = not skips and not bad_guards
+        ctx.ob("C16.R15-every-producer-is-hashed", lp, ok,
+               "every producer of the component gets an entry in %s" % table if ok else
+               "the loop that fills %s skips producers (%s): a reference to a sub-directory of a producer (left out of the file entries because "
+               "it is a directory) then has neither a file hash nor a producer hash - it stays verbatim in the hashed arguments, consumers of "
+               "producers doing different work hash alike, and the hash depends on the producer's NAME" % (
+                   table, short(skips[0], 30) if skips else short(bad_guards[0], 50)), construct="for <producer>: %s[<id>] = <producer hash>" % table)
 
     # ---------------- R14: the file part survives a replacement by the producer's hash ---------------------
     prod_repl = [a for a in source.walk_own(fn) if isinstance(a, ast.Assign) and len(a.targets) == 1 and isinstance(a.targets[0], ast.Name)
